@@ -15,6 +15,7 @@ CONF = {
     "C07": {"quick": 800, "thorough": 40000, "batch": 50, "min_distinct": 20, "loops": [1, 2], "env_alt": [{}, {"GODEBUG": "asynctimerchan=0"}]},
     "C08": {"quick": 480, "thorough": 20000, "batch": 30, "min_distinct": 20, "loops": [1, 2], "env_alt": [{}, {"GODEBUG": "asynctimerchan=0"}]},
     "C10": {"quick": 480, "thorough": 20000, "batch": 30, "min_distinct": 8, "loops": [1, 1, 2]},
+    "C13": {"quick": 240, "thorough": 8000, "batch": 15, "min_distinct": 12, "loops": [2, 1, 2]},
     "C12": {"quick": 384, "thorough": 12800, "batch": 32, "min_distinct": 40, "loops": [1, 2]},
     "C09": {"quick": 1600, "thorough": 60000, "batch": 100, "min_distinct": 20, "loops": [1, 2]},
 }
@@ -148,8 +149,8 @@ def verdict(prop, tier, seed, recs, crashes, total, bt, t0, conf):
             say("  child crashed inside netpoll at [%s] rc=%s\n%s" % (c["progress"], c["rc"], tail[-1800:]))
             viol_lines.append("VIOLATION property=%s replay=%s" % (prop, path))
     for k in known:
-        if known_hits.get(k["id"]):
-            known_lines.append("KNOWN-FINDING: property=%s %s [%s; reproduced %d time(s) in this run]" % (prop, k["summary"], k["id"], known_hits[k["id"]]))
+        # listed findings are announced on every run; how often this run's schedules reproduced them is stated
+        known_lines.append("KNOWN-FINDING: property=%s %s [%s; reproduced %d time(s) in this run]" % (prop, k["summary"], k["id"], known_hits.get(k["id"], 0)))
 
     cov = {
         "evaluations": trials,
